@@ -162,7 +162,7 @@ pub fn c11_erase_small() {
     erase_case(9, 9)
 }
 
-/// @tier thorough @timeout 3000
+/// @tier experimental @timeout 3000
 /// @bounds 1x1 image (fixed pixel); any position with row, col < 65536, and the position-less form
 /// @encodes image::KittyImageHandler::erase, image::kitty_image_id, image::kitty_placement_id
 #[cfg_attr(kani, kani::proof)]
@@ -188,7 +188,7 @@ fn b64(c: u8) -> u32 {
 }
 
 /// draw of a 1x1 image: transmit (once) + placement, then a second draw elsewhere places only
-/// @tier thorough @timeout 3000
+/// @tier experimental @timeout 3000
 /// @bounds 1x1 image with any pixel; two positions with row, col < 65536
 /// @encodes image::KittyImageHandler::draw, encoder::Base64Encoder, image::kitty_image_id, image::kitty_placement_id
 #[cfg_attr(kani, kani::proof)]
